@@ -673,7 +673,7 @@ pub fn cmd_check(prop: &str, tier: &str, xen_bin: Option<&str>) -> i32 {
             match xen_bin {
                 Some(x) => PathBuf::from(x),
                 None => {
-                    skipped_parts.push(p.scen.name().to_string());
+                    skipped_parts.push(p.name.to_string());
                     continue;
                 }
             }
@@ -682,7 +682,7 @@ pub fn cmd_check(prop: &str, tier: &str, xen_bin: Option<&str>) -> i32 {
         };
         let total = ((if thorough { p.thorough } else { p.quick }) as f64 * scale) as u64;
         let total = total.max(workers);
-        let pr = run_part(&exe, p.scen.name(), p.xen, prop, seed, total, workers, max_s, &tmp);
+        let pr = run_part(&exe, p.name, p.xen, prop, seed, total, workers, max_s, &tmp);
         parts.push((exe, pr));
     }
     let _ = std::fs::remove_dir_all(&tmp);
